@@ -4,7 +4,7 @@
 (* before/after are pipeline states [criteria, considered, notConsidered,      *)
 (* params, ...] and report is the entry the response will carry for that bias. *)
 (* The decision-level state machine these steps belong to is Decision.tla.     *)
-EXTENDS Methods
+EXTENDS Methods, Importance
 
 BFail(p, why, key) == [p |-> p, why |-> why, key |-> key]
 
@@ -62,7 +62,7 @@ C07Event(o, k, b) ==
            ELSE (IF StCritIds(before) \ StCritIds(after) = ReportedRemoved(name, rep)
                     /\ StCritIds(after) \ StCritIds(before) = ReportedAdded(name, rep)
                  THEN {} ELSE {BFail("C07", "criteria-delta-unreported", "")})
-                \cup (IF MayRewrite(name, rep, p) = "all" \/ ~ValuesCoherent(before) \/ ~ValuesCoherent(after)
+                \cup (IF MayRewrite(name, rep, p) = "all" \/ ~ValuesCoherent(before) \/ ~ValuesCoherent(after) \/ o.overflow > 0
                          \/ \A a \in AllIds(before) : \A c \in kept \ RewrittenSet(name, rep) :
                                a \in AllIds(after) /\ ValOfAlt(before, a, c) = ValOfAlt(after, a, c)
                       THEN {} ELSE {BFail("C07", "earlier-values-lost", "")}))
@@ -92,4 +92,395 @@ C09Line(o) ==
    THEN {} ELSE {BFail("C09", "modified-after-handover", "")})
   \cup (IF o.reqDigBefore = o.reqDigAfter /\ o.reqHdrBefore = o.reqHdrAfter THEN {} ELSE {BFail("C09", "request-modified", "")})
   \cup (IF o.keptChanged = 0 THEN {} ELSE {BFail("C09", "earlier-result-modified", "")})
+
+(* ---------------- shared: exactness of the state a bias starts from ---------------- *)
+ExactKinds == {"criteriaOmission", "preferenceReversal"}
+(* TRUE iff no earlier bias of this decision produced seeded real numbers: the data are on the grid *)
+ExactBefore(o, k) == \A j \in 1..(k - 1) : ~BiasEvents(o)[j].fired \/ ReqBiases(o)[j].name \in ExactKinds
+
+PGet(p, f, def) == IF Has(p, f) THEN p[f] ELSE def
+MaxInt == 1000000
+(* ranges: declared, else observed over all known alternatives of the state *)
+RangeOf(st, c) == LRange(StCrit(st, c), StAllAlts(st))
+Slack == 2
+Near(a, b, s) == a - b <= s /\ b - a <= s
+
+(* count / ordering rule of omission and reversal *)
+SplitK(o, p, n) == SplitCount(n, PGet(p, "ratio", 0), o.case.unit, PGet(p, "min", 0), PGet(p, "max", MaxInt))
+OrderingOf(p) == IF Has(p, "ordering") /\ p.ordering # "" THEN p.ordering ELSE "weakest"
+OrderingOK(o, k, before, sel, rest, p) ==
+  LET m == Method(o) IN
+  IF ~ExactBefore(o, k) THEN TRUE
+  ELSE IF OrderingOf(p) = "weakest" THEN \A x \in sel : \A y \in rest : Imp(m, before, x) <= Imp(m, before, y)
+  ELSE IF OrderingOf(p) = "strongest" THEN \A x \in sel : \A y \in rest : Imp(m, before, x) >= Imp(m, before, y)
+  ELSE TRUE
+
+(* ---------------- C15: criteria omission ---------------- *)
+C15Event(o, k, b) ==
+  LET e == BiasEvents(o)[k]
+      p == BProps(b)
+      before == BeforeOf(o, k)
+      after == e.after
+      rep == e.report.props
+  IN IF ~e.fired THEN {}
+     ELSE IF ~Has(rep, "omittedCriteria") THEN {BFail("C15", "no-report", "")}
+     ELSE
+       LET om == [j \in DOMAIN rep.omittedCriteria |-> rep.omittedCriteria[j].id]
+           n == Len(before.criteria)
+       IN (IF Len(om) = SplitK(o, p, n) THEN {} ELSE {BFail("C15", "count", "")})
+          \cup (IF NoDup(om) /\ SeqSet(om) \subseteq StCritIds(before) THEN {} ELSE {BFail("C15", "omitted-not-declared", "")})
+          \cup (IF StCritIds(after) = StCritIds(before) \ SeqSet(om) /\ NoDup(CritIdSeq(after)) THEN {} ELSE {BFail("C15", "partition", "")})
+          \cup (IF ~(SeqSet(om) \subseteq StCritIds(before)) \/ OrderingOK(o, k, before, SeqSet(om), StCritIds(before) \ SeqSet(om), p)
+                THEN {} ELSE {BFail("C15", "importance-order", "")})
+          \cup (IF ValuesCoherent(after) /\ e.probeEval /\ e.probeRank THEN {} ELSE {BFail("C15", "not-restricted", "")})
+
+(* ---------------- C16: preference reversal ---------------- *)
+C16Event(o, k, b) ==
+  LET e == BiasEvents(o)[k]
+      p == BProps(b)
+      before == BeforeOf(o, k)
+      after == e.after
+      rep == e.report.props
+  IN IF ~e.fired THEN {}
+     ELSE IF ~Has(rep, "reversedPreferenceCriteria") THEN {BFail("C16", "no-report", "")}
+     ELSE
+       LET rc == rep.reversedPreferenceCriteria
+           sel == [j \in DOMAIN rc |-> rc[j].id]
+           n == Len(before.criteria)
+           okIds == NoDup(sel) /\ SeqSet(sel) \subseteq StCritIds(before)
+           coherent == ValuesCoherent(before) /\ ValuesCoherent(after) /\ AllIds(before) = AllIds(after)
+       IN (IF Len(sel) = SplitK(o, p, n) THEN {} ELSE {BFail("C16", "count", "")})
+          \cup (IF okIds THEN {} ELSE {BFail("C16", "selected-not-declared", "")})
+          \cup (IF ~okIds \/ OrderingOK(o, k, before, SeqSet(sel), StCritIds(before) \ SeqSet(sel), p)
+                THEN {} ELSE {BFail("C16", "importance-order", "")})
+          \cup (IF after.criteria = before.criteria /\ after.params = before.params THEN {} ELSE {BFail("C16", "criteria-or-params-changed", "")})
+          \cup (IF ~(okIds /\ coherent) THEN {}
+                ELSE (IF \A j \in DOMAIN rc :
+                            LET rg == RangeOf(before, rc[j].id)
+                                sl == IF ExactBefore(o, k) THEN 0 ELSE Slack      \* earlier seeded real numbers: rounding slack
+                            IN
+                            /\ Near(rc[j].valuesRange.min, rg.min, sl) /\ Near(rc[j].valuesRange.max, rg.max, sl)
+                            /\ \A a \in AllIds(before) :
+                                  Near(ValOfAlt(after, a, rc[j].id), rg.max + rg.min - ValOfAlt(before, a, rc[j].id), sl)
+                      THEN {} ELSE {BFail("C16", "mirror", "")})
+                     \cup (IF \A j \in DOMAIN rc : \A a \in AllIds(after) :
+                                 a \in DOMAIN rc[j].alternativesValues /\ rc[j].alternativesValues[a] = ValOfAlt(after, a, rc[j].id)
+                           THEN {} ELSE {BFail("C16", "report-differs", ""), BFail("C09", "report-differs", "")})
+                     \cup (IF \A c \in StCritIds(before) \ SeqSet(sel) : \A a \in AllIds(before) :
+                                 ValOfAlt(after, a, c) = ValOfAlt(before, a, c)
+                           THEN {} ELSE {BFail("C16", "unselected-changed", "")}))
+
+(* two consecutive reversals of all criteria restore the data *)
+C16Double(o) ==
+  LET evs == BiasEvents(o) rb == ReqBiases(o) IN
+  IF \E k \in 1..(Len(evs) - 1) :
+        /\ k + 1 <= Len(rb) /\ rb[k].name = "preferenceReversal" /\ rb[k+1].name = "preferenceReversal"
+        /\ evs[k].fired /\ evs[k+1].fired
+        /\ PGet(BProps(rb[k]), "ratio", 0) = o.case.unit /\ PGet(BProps(rb[k+1]), "ratio", 0) = o.case.unit
+        /\ ~Has(BProps(rb[k]), "max") /\ ~Has(BProps(rb[k+1]), "max")
+        /\ ValuesCoherent(BeforeOf(o, k)) /\ ValuesCoherent(evs[k+1].after)
+        /\ \E a \in AllIds(BeforeOf(o, k)) : \E c \in StCritIds(BeforeOf(o, k)) :
+              ValOfAlt(evs[k+1].after, a, c) # ValOfAlt(BeforeOf(o, k), a, c)
+  THEN {BFail("C16", "not-involutive", "")} ELSE {}
+
+(* ---------------- bounding shared by fatigue, concealment, anchoring ---------------- *)
+(* p: the record holding allowedValuesRangeScaling / disallowNegativeValues; rg: [min,max]; u: unit *)
+BScale(p, u) == PGet(p, "allowedValuesRangeScaling", 0 - u)
+BNoNeg(p) == PGet(p, "disallowNegativeValues", FALSE)
+BActive(p, u) == BScale(p, u) > 0 \/ BNoNeg(p)
+(* scaled range about the centre, as a pair of bounds doubled to stay in integers: 2*lo, 2*hi *)
+BRange2(p, rg, u) ==
+  LET sc == BScale(p, u)
+      d2 == rg.max - rg.min                      \* 2 * half-width
+  IN IF sc = u THEN [lo |-> 2 * rg.min, hi |-> 2 * rg.max]
+     ELSE [lo |-> 2 * rg.min + d2 - (d2 * sc) \div u, hi |-> 2 * rg.max - d2 + (d2 * sc) \div u]
+(* monotone bounding of a doubled value x2 *)
+Bound2(p, rg, u, x2) ==
+  LET y == IF BNoNeg(p) /\ x2 < 0 THEN 0 ELSE x2 IN
+  IF BScale(p, u) <= 0 THEN y
+  ELSE LET r == BRange2(p, rg, u)
+           y1 == IF y < r.lo THEN r.lo ELSE y     \* raised to the lower bound first, then cut at the upper one
+       IN IF y1 > r.hi THEN r.hi ELSE y1
+
+(* ---------------- C17: fatigue ---------------- *)
+C17Event(o, k, b) ==
+  LET e == BiasEvents(o)[k]
+      p == BProps(b)
+      u == o.case.unit
+      before == BeforeOf(o, k)
+      after == e.after
+      rep == e.report.props
+  IN IF ~e.fired THEN {}
+     ELSE IF ~Has(rep, "effectiveFatigueRatio") THEN {BFail("C17", "no-report", "")}
+     ELSE
+       LET f == rep.effectiveFatigueRatio
+           coherent == ValuesCoherent(before) /\ ValuesCoherent(after) /\ AllIds(before) = AllIds(after)
+                       /\ StCritIds(before) = StCritIds(after)
+           isConst == PGet(p, "function", "") = "const"
+           within(a, c) ==
+             LET v == ValOfAlt(before, a, c)
+                 w == ValOfAlt(after, a, c)
+                 dev == (NAbs(f) * NAbs(v)) \div u + Slack
+                 rg == RangeOf(before, c)
+             IN /\ 2 * w >= Bound2(p, rg, u, 2 * (v - dev)) - 2 * Slack
+                /\ 2 * w <= Bound2(p, rg, u, 2 * (v + dev)) + 2 * Slack
+           listSame(repl, stl) ==
+             /\ Len(repl) = Len(stl)
+             /\ \A j \in DOMAIN repl : repl[j].id = stl[j].id /\ repl[j].criteria = stl[j].criteria
+       IN (IF ~isConst \/ Near(f, PGet(PGet(p, "params", <<>>), "value", 0), 0) THEN {} ELSE {BFail("C17", "ratio", "")})
+          \cup (IF after.criteria = before.criteria /\ after.params = before.params THEN {} ELSE {BFail("C17", "criteria-or-params-changed", "")})
+          \cup (IF ~coherent THEN {BFail("C17", "coverage", "")}
+                ELSE (IF \A a \in AllIds(before) : \A c \in StCritIds(before) : within(a, c) THEN {} ELSE {BFail("C17", "bound", "")})
+                     \cup (IF (f = 0 /\ ~BActive(p, u)) =>
+                                \A a \in AllIds(before) : \A c \in StCritIds(before) : ValOfAlt(after, a, c) = ValOfAlt(before, a, c)
+                           THEN {} ELSE {BFail("C17", "zero-ratio-changed-data", "")})
+                     \cup (IF ~BActive(p, u) =>
+                                \A a \in AllIds(before) : \A c \in StCritIds(before) : ValOfAlt(before, a, c) = 0 => ValOfAlt(after, a, c) = 0
+                           THEN {} ELSE {BFail("C17", "zero-value-moved", "")}))
+          \cup (IF Has(rep, "consideredAlternatives") /\ Has(rep, "notConsideredAlternatives")
+                   /\ listSame(rep.consideredAlternatives, after.considered)
+                   /\ listSame(rep.notConsideredAlternatives, after.notConsidered)
+                THEN {} ELSE {BFail("C17", "report-differs", ""), BFail("C09", "report-differs", "")})
+
+(* both blur directions occur among the clearly moved values of one decision (2^-39 false alarm) *)
+C17Directions(o) ==
+  LET evs == BiasEvents(o) rb == ReqBiases(o) u == o.case.unit IN
+  IF \E k \in DOMAIN evs :
+       /\ k <= Len(rb) /\ rb[k].name = "fatigue" /\ evs[k].fired /\ ~BActive(BProps(rb[k]), u)
+       /\ ValuesCoherent(BeforeOf(o, k)) /\ ValuesCoherent(evs[k].after) /\ AllIds(BeforeOf(o, k)) = AllIds(evs[k].after)
+       /\ StCritIds(BeforeOf(o, k)) = StCritIds(evs[k].after)
+       /\ LET before == BeforeOf(o, k)
+              after == evs[k].after
+              cells == AllIds(before) \X StCritIds(before)
+              up == {x \in cells : ValOfAlt(after, x[1], x[2]) > ValOfAlt(before, x[1], x[2]) + Slack}
+              down == {x \in cells : ValOfAlt(after, x[1], x[2]) < ValOfAlt(before, x[1], x[2]) - Slack}
+          IN Cardinality(up) + Cardinality(down) >= 40 /\ (up = {} \/ down = {})
+  THEN {BFail("C17", "one-direction-only", "")} ELSE {}
+
+(* ---------------- C18: criteria concealment ---------------- *)
+(* weight the method's parameters hold for criterion c, for the weight-based methods; -1 if none *)
+WeightIn(method, st, c) ==
+  IF method = "weightedSum" THEN (IF \E i \in DOMAIN st.params.weightedCriteria : st.params.weightedCriteria[i].Criterion.Id = c
+                                  THEN SeqWeight(st.params.weightedCriteria, c) ELSE 0 - 1)
+  ELSE IF method = "owa" THEN (IF \E i \in DOMAIN st.params.Weights : st.params.Weights[i].Criterion.Id = c
+                               THEN SeqWeight(st.params.Weights, c) ELSE 0 - 1)
+  ELSE IF method \in {"majorityHeuristic", "aspectEliminationHeuristic"} THEN (IF c \in DOMAIN st.params.Weights THEN st.params.Weights[c] ELSE 0 - 1)
+  ELSE IF method = "electreIII" THEN (IF c \in DOMAIN st.params.Criteria THEN st.params.Criteria[c].K ELSE 0 - 1)
+  ELSE 0 - 1
+WeightBased(method) == method \in {"weightedSum", "owa", "majorityHeuristic", "aspectEliminationHeuristic", "electreIII"}
+
+(* range scaled about its centre by sc/u, as doubled bounds *)
+Scaled2(rg, sc, u) ==
+  LET d2 == rg.max - rg.min IN [lo |-> 2 * rg.min + d2 - (d2 * sc) \div u, hi |-> 2 * rg.max - d2 + (d2 * sc) \div u]
+Hull2(r) == [lo |-> NMin(r.lo, r.hi), hi |-> NMax(r.lo, r.hi)]
+
+(* shape every criterion-adding step must have: one new id appended, values for everybody, old data untouched *)
+AddedShapeOK(before, after, newIds) ==
+  /\ NoDup(newIds) /\ SeqSet(newIds) \cap StCritIds(before) = {}
+  /\ CritIdSeq(after) = CritIdSeq(before) \o newIds
+  /\ ValuesCoherent(after)
+  /\ AllIds(after) = AllIds(before)
+
+C18Conceal(o, k, b) ==
+  LET e == BiasEvents(o)[k]
+      p == BProps(b)
+      u == o.case.unit
+      m == Method(o)
+      before == BeforeOf(o, k)
+      after == e.after
+      rep == e.report.props
+  IN IF ~e.fired THEN {}
+     ELSE IF ~Has(rep, "addedCriteria") \/ Len(rep.addedCriteria) # 1 THEN {BFail("C18", "not-exactly-one-added", "")}
+     ELSE
+       LET ac == rep.addedCriteria[1]
+           sc == PGet(p, "newCriterionScaling", u)
+           shape == AddedShapeOK(before, after, <<ac.id>>) /\ ValuesCoherent(before)
+           (* candidate reference criteria: those whose scaled range is the reported range *)
+           refs == {c \in StCritIds(before) :
+                      LET r == Scaled2(RangeOf(before, c), sc, u) IN
+                      Near(2 * ac.valuesRange.min, r.lo, 2 * Slack) /\ Near(2 * ac.valuesRange.max, r.hi, 2 * Slack)}
+           newrg == ac.valuesRange
+           h == Hull2([lo |-> 2 * newrg.min, hi |-> 2 * newrg.max])
+           inRange(a) ==
+             LET w == ValOfAlt(after, a, ac.id) IN
+             /\ 2 * w >= Bound2(p, newrg, u, h.lo) - 2 * Slack
+             /\ 2 * w <= Bound2(p, newrg, u, h.hi) + 2 * Slack
+           wnew == WeightIn(m, after, ac.id)
+       IN (IF ac.type = "gain" THEN {} ELSE {BFail("C18", "not-gain", "")})
+          \cup (IF shape THEN {} ELSE {BFail("C18", "shape", "")})
+          \cup (IF refs # {} THEN {} ELSE {BFail("C18", "no-reference-criterion", "")})
+          \cup (IF ~shape THEN {}
+                ELSE (IF \A a \in AllIds(after) : inRange(a) THEN {} ELSE {BFail("C18", "value-out-of-range", "")})
+                     \cup (IF \A a \in AllIds(after) : a \in DOMAIN ac.alternativesValues /\ ac.alternativesValues[a] = ValOfAlt(after, a, ac.id)
+                           THEN {} ELSE {BFail("C18", "report-differs", ""), BFail("C09", "report-differs", "")})
+                     \cup (IF ~WeightBased(m) \/ refs = {} THEN {}
+                           ELSE IF \E c \in refs : wnew >= 0 /\ wnew <= WeightIn(m, before, c) + Slack
+                                   /\ (WeightIn(m, before, c) > Slack => wnew < WeightIn(m, before, c) + Slack)
+                           THEN {} ELSE {BFail("C18", "new-weight-not-a-fraction-of-reference", "")})
+                     \cup (IF \A c \in StCritIds(before) : WeightIn(m, after, c) = WeightIn(m, before, c)
+                           THEN {} ELSE {BFail("C18", "old-parameters-changed", "")}))
+
+(* ---------------- C18: criteria mixing ---------------- *)
+C18Mix(o, k, b) ==
+  LET e == BiasEvents(o)[k]
+      p == BProps(b)
+      u == o.case.unit
+      m == Method(o)
+      before == BeforeOf(o, k)
+      after == e.after
+      rep == e.report.props
+      ratio == PGet(p, "mixingRatio", u \div 2)
+  IN IF ~e.fired THEN {}
+     ELSE IF Len(before.criteria) < 2 THEN (IF before = after THEN {} ELSE {BFail("C18", "mixed-with-one-criterion", "")})
+     ELSE IF ~(Has(rep, "component1") /\ Has(rep, "component2") /\ Has(rep, "newCriterion")) THEN {BFail("C18", "no-report", "")}
+     ELSE
+       LET c1 == rep.component1 c2 == rep.component2 nc == rep.newCriterion
+           shape == AddedShapeOK(before, after, <<nc.id>>) /\ ValuesCoherent(before)
+           comps == c1.id # c2.id /\ c1.id \in StCritIds(before) /\ c2.id \in StCritIds(before)
+           (* rescaling of criterion c into [0, T]: (v - min) T / diff, cost inverted; checked cross-multiplied *)
+           rescOK(comp, T) ==
+             LET rg == RangeOf(before, comp.id)
+                 diff == rg.max - rg.min
+                 ty == StCrit(before, comp.id).type
+             IN \A a \in AllIds(before) :
+                  a \in DOMAIN comp.scaledValues /\
+                  LET v == ValOfAlt(before, a, comp.id)
+                      num == IF ty = "cost" THEN rg.max - v ELSE v - rg.min
+                  IN IF diff = 0 THEN Near(comp.scaledValues[a], 0, Slack)
+                     ELSE LET q == (num * (T \div 16)) \div (diff \div 16 + (IF diff \div 16 = 0 THEN 1 ELSE 0))  \* coarse, overflow-safe
+                          IN Near(comp.scaledValues[a], q, 4 * Slack + (NAbs(q) \div 64))
+           targets == {LET rg == RangeOf(before, c) IN NMax(NMax(NAbs(rg.min), NAbs(rg.max)), rg.max - rg.min) : c \in StCritIds(before)}
+       IN (IF nc.type = "gain" THEN {} ELSE {BFail("C18", "not-gain", "")})
+          \cup (IF shape THEN {} ELSE {BFail("C18", "shape", "")})
+          \cup (IF comps THEN {} ELSE {BFail("C18", "components", "")})
+          \cup (IF ~(shape /\ comps) THEN {}
+                ELSE (IF \A a \in AllIds(after) :
+                            /\ a \in DOMAIN nc.scaledValues /\ a \in DOMAIN c1.scaledValues /\ a \in DOMAIN c2.scaledValues
+                            /\ Near(nc.scaledValues[a] * u, ratio * c1.scaledValues[a] + (u - ratio) * c2.scaledValues[a], 2 * u)
+                      THEN {} ELSE {BFail("C18", "mix-formula", "")})
+                     \cup (IF \A a \in AllIds(after) : a \in DOMAIN nc.scaledValues /\ nc.scaledValues[a] = ValOfAlt(after, a, nc.id)
+                           THEN {} ELSE {BFail("C18", "report-differs", ""), BFail("C09", "report-differs", "")})
+                     \cup (IF \E T \in targets : rescOK(c1, T) /\ rescOK(c2, T) THEN {} ELSE {BFail("C18", "rescaling", "")})
+                     \cup (IF \A c \in StCritIds(before) : WeightIn(m, after, c) = WeightIn(m, before, c)
+                           THEN {} ELSE {BFail("C18", "old-parameters-changed", "")})
+                     \cup (IF ~WeightBased(m) \/ (WeightIn(m, after, nc.id) >= 0 /\ \E c \in StCritIds(before) : WeightIn(m, after, nc.id) <= WeightIn(m, before, c) + Slack)
+                           THEN {} ELSE {BFail("C18", "new-weight-not-a-fraction-of-reference", "")}))
+
+
+(* ---------------- C19: anchoring ---------------- *)
+(* measure by which the anchoring alternatives are compared on criterion c: value x coefficient for  *)
+(* gain, value / coefficient for cost (compared cross-multiplied); ideal takes the best, nadir the   *)
+(* worst.  Ties in the measure leave the supplier of the reference value open, so the contract is    *)
+(* membership in the set of admissible reference values.                                             *)
+AnchorBetter(ty, v1, k1, v2, k2) ==       \* alternative 1 strictly better than alternative 2
+  IF ty = "cost" THEN v1 * k2 < v2 * k1 ELSE v1 * k1 > v2 * k2
+AnchorAdmissible(ty, aa, vals, strat) ==   \* aa: seq of [alternative, coefficient]; vals: alt -> value
+  {vals[aa[i].alternative] : i \in {i \in DOMAIN aa :
+      \A j \in DOMAIN aa :
+         IF strat = "ideal"
+         THEN ~AnchorBetter(ty, vals[aa[j].alternative], aa[j].coefficient, vals[aa[i].alternative], aa[i].coefficient)
+         ELSE ~AnchorBetter(ty, vals[aa[i].alternative], aa[i].coefficient, vals[aa[j].alternative], aa[j].coefficient)}}
+
+LinVal2(f, num, den, u) ==    \* (a * num/den + b) in unit u, times den: a*num + b*den  (a, b in unit u)
+  PGet(f, "a", 0) * num + PGet(f, "b", 0) * den
+IsLinear(fd) == Has(fd, "function") /\ fd.function = "linear"
+FunParams(fd) == PGet(fd, "params", <<>>)
+LinIsZero(fd) == IsLinear(fd) /\ PGet(FunParams(fd), "a", 0) = 0 /\ PGet(FunParams(fd), "b", 0) = 0
+
+C19Event(o, k, b) ==
+  LET e == BiasEvents(o)[k]
+      p == BProps(b)
+      u == o.case.unit
+      before == BeforeOf(o, k)
+      after == e.after
+      rep == e.report.props
+  IN IF ~e.fired THEN {}
+     ELSE IF ~(Has(rep, "referencePoints") /\ Has(rep, "criteriaScaling") /\ Has(rep, "perReferencePointsDifferences") /\ Has(rep, "applierResult"))
+          THEN {BFail("C19", "no-report", "")}
+     ELSE IF ~ValuesCoherent(before) \/ Len(rep.referencePoints) # 1 THEN {BFail("C19", "shape", "")}
+     ELSE
+       LET aa == p.anchoringAlternatives
+           strat == p.referencePoints.function
+           rp == rep.referencePoints[1]
+           C == StCritIds(before)
+           ty == StType(before)
+           allv(c) == [a \in AllIds(before) |-> ValOfAlt(before, a, c)]
+           sgn(c, v) == IF ty[c] = "cost" THEN 0 - v ELSE v
+           inline == p.applier.function = "inline"
+           ap == PGet(p.applier, "params", <<>>)
+           diffs == rep.perReferencePointsDifferences
+           coefOf(a, c) == LET d == diffs[CHOOSE i \in DOMAIN diffs : diffs[i].alternative.id = a] IN d.referencePointsDifference[1].coefficients[c]
+           diffsOK == /\ {diffs[i].alternative.id : i \in DOMAIN diffs} = AllIds(before)
+                      /\ \A i \in DOMAIN diffs : Len(diffs[i].referencePointsDifference) = 1 /\ DOMAIN diffs[i].referencePointsDifference[1].coefficients = C
+           (* mapped difference of alternative a on criterion c against the reported reference point *)
+           mappedOK(a, c) ==
+             LET rg == RangeOf(before, c)
+                 den == rg.max - rg.min
+                 num == sgn(c, ValOfAlt(before, a, c)) - sgn(c, rp.criteria[c])
+                 better == (den > 0 /\ num > 0) \/ (den < 0 /\ num < 0)     \* scaled difference num/den > 0
+                 fd == IF better THEN p.gain ELSE p.loss
+                 got == coefOf(a, c)
+             IN IF ~IsLinear(fd) THEN
+                    (* exponential mapping: sign only; a zero multiplier maps everything to zero *)
+                    /\ (PGet(FunParams(fd), "multiplier", 0) = 0 => got = 0)
+                    /\ ((PGet(FunParams(fd), "multiplier", 0) > 0 /\ PGet(FunParams(fd), "alpha", 0) > 0) => (IF better THEN got >= 0 ELSE got <= 0))
+                ELSE IF den = 0 THEN Near(got, 0 - PGet(FunParams(fd), "b", 0), Slack)      \* scale 0: difference 0 -> -loss(0)
+                ELSE IF better THEN Near(got * den, LinVal2(FunParams(fd), num, den, u), Slack * NAbs(den) + u)
+                ELSE Near(got * den, 0 - LinVal2(FunParams(fd), 0 - num, den, u), Slack * NAbs(den) + u)
+           refOK == /\ rp.id = strat /\ DOMAIN rp.criteria = C
+                    /\ \A c \in C : rp.criteria[c] \in AnchorAdmissible(ty[c], aa, allv(c), strat)
+           scalingOK == /\ DOMAIN rep.criteriaScaling = C
+                        /\ \A c \in C : LET rg == RangeOf(before, c) sc == rep.criteriaScaling[c] IN
+                              /\ sc.valuesRange.min = rg.min /\ sc.valuesRange.max = rg.max
+                              /\ (IF rg.max = rg.min THEN sc.scale = 0 ELSE Near(sc.scale * (rg.max - rg.min), u * u, NAbs(rg.max - rg.min) + u))
+           (* inline applier *)
+           applied == rep.applierResult.appliedDifferences
+           appliedOf(a) == applied[CHOOSE i \in DOMAIN applied : applied[i].id = a].criteria
+           touched == IF PGet(ap, "applyOnNotConsidered", FALSE) THEN AllIds(before) ELSE AltIdsOf(before.considered)
+           inlineOK ==
+             /\ after.criteria = before.criteria /\ after.params = before.params
+             /\ ValuesCoherent(after) /\ AllIds(after) = AllIds(before)
+             /\ {applied[i].id : i \in DOMAIN applied} = touched
+             /\ \A a \in AllIds(before) : \A c \in C :
+                  LET v == ValOfAlt(before, a, c)
+                      w == ValOfAlt(after, a, c)
+                      rg == RangeOf(before, c)
+                      moved2 == 2 * v + (2 * (rg.max - rg.min) * coefOf(a, c)) \div u
+                  IN IF a \in touched
+                     THEN /\ Near(2 * w, Bound2(ap, rg, u, moved2), 4 * Slack + (2 * NAbs(rg.max - rg.min)) \div u + 2)
+                          /\ Near(appliedOf(a)[c], w - v, Slack)
+                     ELSE w = v
+           zeroIdentity ==
+             (inline /\ LinIsZero(p.gain) /\ LinIsZero(p.loss) /\ ~BActive(ap, u)) =>
+                \A a \in AllIds(before) : \A c \in C : ValOfAlt(after, a, c) = ValOfAlt(before, a, c)
+           (* new-criterion applier *)
+           added == rep.applierResult.addedCriteria
+           newOK ==
+             /\ Len(added) = 1
+             /\ AddedShapeOK(before, after, <<added[1].id>>)
+             /\ \A a \in AllIds(after) : a \in DOMAIN added[1].alternativesValues /\ added[1].alternativesValues[a] = ValOfAlt(after, a, added[1].id)
+             /\ \A a \in AllIds(before) : \A c \in C : ValOfAlt(after, a, c) = ValOfAlt(before, a, c)
+             (* value = mid-range + half-range x (a weighted mean of the mapped differences) of the reference criterion *)
+             /\ \E rc \in C :
+                  LET rg == RangeOf(before, rc) IN
+                  \A a \in AllIds(before) :
+                     LET lo == SetMin({coefOf(a, c) : c \in C})
+                         hi == SetMax({coefOf(a, c) : c \in C})
+                         w == ValOfAlt(after, a, added[1].id)
+                         d == rg.max - rg.min
+                         t == 4 * Slack + (2 * NAbs(d)) \div u + 2
+                         x1 == rg.min + rg.max + (d * lo) \div u
+                         x2 == rg.min + rg.max + (d * hi) \div u
+                     IN /\ 2 * w >= Bound2(ap, rg, u, NMin(x1, x2)) - t
+                        /\ 2 * w <= Bound2(ap, rg, u, NMax(x1, x2)) + t
+       IN (IF refOK THEN {} ELSE {BFail("C19", "reference-point", "")})
+          \cup (IF scalingOK THEN {} ELSE {BFail("C19", "scaling", "")})
+          \cup (IF ~diffsOK THEN {BFail("C19", "differences-shape", "")}
+                ELSE IF ~refOK THEN {}
+                ELSE (IF \A a \in AllIds(before) : \A c \in C : mappedOK(a, c) THEN {} ELSE {BFail("C19", "mapped-difference", "")})
+                     \cup (IF inline
+                           THEN (IF Has(rep.applierResult, "appliedDifferences") /\ inlineOK THEN {} ELSE {BFail("C19", "inline-applier", "")})
+                                \cup (IF ValuesCoherent(after) /\ AllIds(after) = AllIds(before) /\ StCritIds(after) = C /\ zeroIdentity THEN {} ELSE {BFail("C19", "zero-functions-changed-data", "")})
+                           ELSE (IF Has(rep.applierResult, "addedCriteria") /\ newOK THEN {} ELSE {BFail("C19", "new-criterion-applier", "")})))
+
 =============================================================================
